@@ -73,6 +73,7 @@ type Session struct {
 	WillSlot  *Will
 	Abandoned bool
 	FirstTx   map[string]*txRec
+	OtherQ2   map[uint16]bool // ids of untracked QoS 2 deliveries this session answered with PUBREC
 }
 
 type Expect struct {
@@ -123,6 +124,7 @@ type Slot struct {
 	aliasIn  map[uint16]string
 	inflight map[uint16]*OutMsg // broker-outbound ids in transit on this connection (PUBACK/PUBCOMP pending)
 	ownQ2    map[uint16]bool    // own QoS 2 publishes awaiting PUBREC/PUBCOMP
+	otherQ2  map[uint16]bool    // untracked QoS 2 deliveries (empty payload, $SYS) we answered with PUBREC
 	ExpectClose bool
 	CloseRule   string
 	sendQ    [][]byte
